@@ -255,70 +255,7 @@ func runC02(c *Ctx) {
 
 	c.rule("C02.V2", checkpointFloorDoc, func() { c.checkpointFloor() })
 
-	c.rule("C02.V4", "the offered branch is validated against its own ancestors: in the loop over the branch headers (msg.Headers[i:]) the header handed to checkHeaderSanity(..,true,..) is the element at the loop position, the parent height is (fork height) + position, the fork height being the one FetchHeader returned for the fork point, and the node pushed on reorgList carries (fork height) + 1 + position (the retarget and median-time rules look ancestors up by these heights)", func() {
-		fn := c.fn(fnHandleHeaders)
-		sanity := c.method("neutrino", "blockManager", "checkHeaderSanity")
-		san := find(fn, withArg(callTo(sanity), 2, isConstBool(true)))
-		if len(san) == 0 {
-			c.fail(c.nm(fn)+" | reorg sanity call", c.P.Pos(fn.Pos()), "no checkHeaderSanity(.., true, ..) call found")
-			return
-		}
-		isBack := func(v ssa.Value) bool {
-			e, ok := ir.Strip(v).(*ssa.Extract)
-			if !ok || e.Index != 1 {
-				return false
-			}
-			in, ok := e.Tuple.(ssa.Instruction)
-			return ok && callTo(bhs("FetchHeader"))(in)
-		}
-		nodeHeight := c.field("headerlist", "Node", "Height")
-		for _, s := range san {
-			h := ir.LoopHeaderOf(s.Block())
-			construct := c.nm(fn) + " | parent height of a branch header = fork height + position"
-			if h == nil {
-				c.fail(construct, c.at(s), "the reorg sanity check is not inside a loop over the branch")
-				continue
-			}
-			lf := loopFormOf(h)
-			if lf.problem != "" {
-				c.fail(construct, c.at(s), lf.problem)
-				continue
-			}
-			cc := ir.CallOf(s)
-			// validated header: element at the loop position of a sub-slice of msg.Headers
-			elemOK := ir.DerivesFrom(cc.Args[1], func(x ssa.Value) bool {
-				ia, ok := x.(*ssa.IndexAddr)
-				if !ok {
-					return false
-				}
-				off, isCtr := counterOffset(lf, ia.Index)
-				return isCtr && off == 0 && loadsField(msgHeaders())(ia.X)
-			})
-			c.verdict(elemOK, c.nm(fn)+" | validated branch header is the element at the loop position", c.at(s), "msg.Headers[i:][position]", "the header handed to checkHeaderSanity is not the element at the loop position of msg.Headers[i:]", c.at(s))
-			coef, ctr, k, ok := linTerms(cc.Args[3], lf, isBack)
-			okH := ok && coef[0] == 1 && ctr == 1 && k == 0
-			c.verdict(okH, construct, c.at(s), "backHeight + position", fmt.Sprintf("the parent height handed to checkHeaderSanity is not (fork height) + (position in the branch) (decomposed: fork height x%d, position x%d, constant %+d, other terms: %v): the contextual checks (retarget, median time past) would look at the wrong ancestors whenever the message starts with headers the client already has", coef[0], ctr, k, !ok), c.at(s))
-			// the node pushed for this header
-			in := ir.LoopBlocks(h)
-			nPush := 0
-			ir.Instrs(fn, func(x ssa.Instruction) {
-				st, isSt := x.(*ssa.Store)
-				if !isSt || !in[st.Block()] {
-					return
-				}
-				fa, isFa := st.Addr.(*ssa.FieldAddr)
-				if !isFa || ir.FieldOfAddr(fa) != nodeHeight {
-					return
-				}
-				nPush++
-				coef, ctr, k, ok := linTerms(st.Val, lf, isBack)
-				c.verdict(ok && coef[0] == 1 && ctr == 1 && k == 1, c.nm(fn)+" | height of the node pushed on reorgList = fork height + 1 + position", c.at(x), "backHeight + 1 + position", fmt.Sprintf("the height recorded for a branch header on reorgList is not (fork height) + 1 + position (fork height x%d, position x%d, constant %+d, other terms: %v)", coef[0], ctr, k, !ok), c.at(x))
-			})
-			if nPush == 0 {
-				c.fail(c.nm(fn)+" | height of the node pushed on reorgList = fork height + 1 + position", c.at(s), "no headerlist.Node with a Height is built inside the branch loop")
-			}
-		}
-	})
+	c.rule("C02.V4", branchOwnAncestorsDoc, func() { c.branchOwnAncestors() })
 
 	c.rule("C02.V5", "a rollback starts at the store's tip: the block stamp rollBackToHeight begins its loop with (the height it compares with the target and the hash whose header it fetches) is built from BlockHeaders.ChainTip(), and the filter-header height it compares with from RegFilterHeaders.ChainTip() (the in-memory headerTip / headerTipHash are hints for the filter-header sync: after a headers message that added nothing they are zero / a non-tip hash, and a rollback started from them removes nothing while the new branch is appended behind the old one)", func() {
 		fn := c.fn(fnRollBack)
@@ -374,6 +311,8 @@ func runC02(c *Ctx) {
 	})
 
 	c.rule("C02.V6", "the headers a reorganisation displaces are gone for good: a hash whose index entry survives the rollback resolves again once the new branch has grown past its height - to the new branch's header at that height - and headers building on the displaced header are then weighed as a fork of the accepted chain: "+rolledBackEntriesRemovedDoc, func() { c.rolledBackEntriesRemoved() })
+
+	c.rule("C02.G4", "every header of an adopted branch carries its proof of work: the forking header is written straight after the rollback and never goes through the regular path, so the scratch validation of the branch is its only check: "+headerSanityValidatorDoc, func() { c.headerSanityValidator() })
 
 	c.rule("C02.W1", "rollBackToHeight is called only from handleHeadersMsg", func() {
 		rollM := c.method("neutrino", "blockManager", "rollBackToHeight")
@@ -649,4 +588,74 @@ func (c *Ctx) checkpointFloor() {
 	if n == 0 {
 		c.fail(c.nm(fn)+" | floor = findPreviousHeaderCheckpoint(headerList.Back().Height + 1)", c.P.Pos(fn.Pos()), "no findPreviousHeaderCheckpoint result feeds a comparison with the fork height")
 	}
+}
+
+const branchOwnAncestorsDoc = "the offered branch is validated against its own ancestors: in the loop over the branch headers (msg.Headers[i:]) the header handed to checkHeaderSanity(..,true,..) is the element at the loop position, the parent height is (fork height) + position, the fork height being the one FetchHeader returned for the fork point, and the node pushed on reorgList carries (fork height) + 1 + position (the retarget and median-time rules look ancestors up by these heights)"
+
+// branchOwnAncestors: see branchOwnAncestorsDoc.
+func (c *Ctx) branchOwnAncestors() {
+	bhs := func(m string) *types.Func { return c.method("headerfs", "BlockHeaderStore", m) }
+	msgHeaders := func() *types.Var { return c.field(pWire, "MsgHeaders", "Headers") }
+		fn := c.fn(fnHandleHeaders)
+		sanity := c.method("neutrino", "blockManager", "checkHeaderSanity")
+		san := find(fn, withArg(callTo(sanity), 2, isConstBool(true)))
+		if len(san) == 0 {
+			c.fail(c.nm(fn)+" | reorg sanity call", c.P.Pos(fn.Pos()), "no checkHeaderSanity(.., true, ..) call found")
+			return
+		}
+		isBack := func(v ssa.Value) bool {
+			e, ok := ir.Strip(v).(*ssa.Extract)
+			if !ok || e.Index != 1 {
+				return false
+			}
+			in, ok := e.Tuple.(ssa.Instruction)
+			return ok && callTo(bhs("FetchHeader"))(in)
+		}
+		nodeHeight := c.field("headerlist", "Node", "Height")
+		for _, s := range san {
+			h := ir.LoopHeaderOf(s.Block())
+			construct := c.nm(fn) + " | parent height of a branch header = fork height + position"
+			if h == nil {
+				c.fail(construct, c.at(s), "the reorg sanity check is not inside a loop over the branch")
+				continue
+			}
+			lf := loopFormOf(h)
+			if lf.problem != "" {
+				c.fail(construct, c.at(s), lf.problem)
+				continue
+			}
+			cc := ir.CallOf(s)
+			// validated header: element at the loop position of a sub-slice of msg.Headers
+			elemOK := ir.DerivesFrom(cc.Args[1], func(x ssa.Value) bool {
+				ia, ok := x.(*ssa.IndexAddr)
+				if !ok {
+					return false
+				}
+				off, isCtr := counterOffset(lf, ia.Index)
+				return isCtr && off == 0 && loadsField(msgHeaders())(ia.X)
+			})
+			c.verdict(elemOK, c.nm(fn)+" | validated branch header is the element at the loop position", c.at(s), "msg.Headers[i:][position]", "the header handed to checkHeaderSanity is not the element at the loop position of msg.Headers[i:]", c.at(s))
+			coef, ctr, k, ok := linTerms(cc.Args[3], lf, isBack)
+			okH := ok && coef[0] == 1 && ctr == 1 && k == 0
+			c.verdict(okH, construct, c.at(s), "backHeight + position", fmt.Sprintf("the parent height handed to checkHeaderSanity is not (fork height) + (position in the branch) (decomposed: fork height x%d, position x%d, constant %+d, other terms: %v): the contextual checks (retarget, median time past) would look at the wrong ancestors whenever the message starts with headers the client already has", coef[0], ctr, k, !ok), c.at(s))
+			// the node pushed for this header
+			in := ir.LoopBlocks(h)
+			nPush := 0
+			ir.Instrs(fn, func(x ssa.Instruction) {
+				st, isSt := x.(*ssa.Store)
+				if !isSt || !in[st.Block()] {
+					return
+				}
+				fa, isFa := st.Addr.(*ssa.FieldAddr)
+				if !isFa || ir.FieldOfAddr(fa) != nodeHeight {
+					return
+				}
+				nPush++
+				coef, ctr, k, ok := linTerms(st.Val, lf, isBack)
+				c.verdict(ok && coef[0] == 1 && ctr == 1 && k == 1, c.nm(fn)+" | height of the node pushed on reorgList = fork height + 1 + position", c.at(x), "backHeight + 1 + position", fmt.Sprintf("the height recorded for a branch header on reorgList is not (fork height) + 1 + position (fork height x%d, position x%d, constant %+d, other terms: %v)", coef[0], ctr, k, !ok), c.at(x))
+			})
+			if nPush == 0 {
+				c.fail(c.nm(fn)+" | height of the node pushed on reorgList = fork height + 1 + position", c.at(s), "no headerlist.Node with a Height is built inside the branch loop")
+			}
+		}
 }
